@@ -72,13 +72,21 @@ class Prop(PropBase):
             s.lines.append(cfg.line(0, lj)); s.lines.append(f'N 0 3 {msop} {difop} 0 0')
             big = scen.mems_msop(rng, lj, 1)
             frs = fragments(big, msop, 0x1234, [1480])
-            for j in range(rng.choice([2, 4])):
-                kind = rng.choice(['train', 'tot_lt_ihl', 'overflow', 'udp_short', 'cut', 'runt', 'ihl_small'])
+            kinds = ['train', 'tot_lt_ihl', 'tot_lt_ihl', 'overflow', 'udp_short', 'cut', 'runt', 'ihl_small']
+            rng.shuffle(kinds)
+            for kind in kinds:
                 if kind == 'train':
                     for f in frs:
                         s.lines.append(f'F 0 {len(f)} {f.hex()}')
                 elif kind == 'tot_lt_ihl':
-                    f = udp_frame(b'', msop, raw_ip_payload=bytes(16), tot_len=rng.choice([0, 8, 19]), more=rng.random() < 0.5, ip_id=7); s.lines.append(f'F 0 {len(f)} {f.hex()}')
+                    if rng.random() < 0.5:
+                        f = udp_frame(b'', msop, raw_ip_payload=bytes(16), tot_len=rng.choice([0, 8, 19]), more=rng.random() < 0.5, ip_id=7)
+                    else:
+                        # a header with options whose total length covers the fixed 20 bytes but not the options
+                        hl = rng.choice([6, 7, 10, 15])
+                        f = udp_frame(b'', msop, raw_ip_payload=(6699).to_bytes(2, 'big') + msop.to_bytes(2, 'big') + bytes(20), ihl=hl,
+                                      tot_len=rng.choice([20, 22, hl * 4 - 1, hl * 4 - 4]), more=rng.random() < 0.4, ip_id=7)
+                    s.lines.append(f'F 0 {len(f)} {f.hex()}')
                 elif kind == 'overflow':
                     # fragments of one id whose fill level passes 64 KiB
                     off = 0
